@@ -5002,9 +5002,9 @@ class ParseCtx:
             self.exception_handlers.update({x: try_node.get_handler() for x in catch_handles})
             
             try_node.set_body(self._parse_stmt_seq(body_block_stmts))
-            try_node.set_handler(self._parse_stmt_seq(catch_block_stmts))
-            
+            # the handler itself is not protected by the try it belongs to
             self.exception_handlers = prior_error_reasons
+            try_node.set_handler(self._parse_stmt_seq(catch_block_stmts))
 
             return try_node
         elif stmt.data == "foreach_stmt":
